@@ -17,13 +17,13 @@ CHECKS = {
     ),
     "C15": dict(
         technique="property-based differential testing: pretty_print=True vs False outputs compared as canonical trees (character-exact text in any element with non-blank text)",
-        text="Generated-input search; each form is converted in both modes and the two documents must be the same tree with identical attributes, namespaces and text (whitespace-only text ignored only between elements).",
+        text="Generated-input search; each form is converted in both modes and the two documents must be the same tree with identical attributes, namespaces and text (whitespace-only text ignored only between elements). Also: one mode well-formed and the other not is a difference; the survey's own file writer (print_xform_to_file) is put through the same switch; texts carry U+2028/U+2029/U+0085 and multi-line string literals.",
         design_ref="DESIGN.md §4 C15",
         note="Both outputs parsed by libxml2; generator weighted to mixed text/output content and significant spaces.",
     ),
     "C16": dict(
         technique="property-based round-trip testing (workbook JSON and survey.to_json_dict dumps through json.dumps/loads and the builder) with XForm equality and dump-stability oracles",
-        text="Generated-input search; four round-trip clauses per accepted form. Differences are classified by what differs (attribute, element, text) so each root cause is its own bucket.",
+        text="Generated-input search; four round-trip clauses per accepted form. Differences are classified by what differs (attribute, element, text) so each root cause is its own bucket. Also: the survey's to_json() text through create_survey_element_from_json; the legacy flat and add_none_option settings.",
         design_ref="DESIGN.md §4 C16",
         note="Uses pyxform's public builder/to_json_dict/workbook_to_json entry points; two genuine defects found here were fixed in /repo (see known_findings.json).",
     ),
@@ -47,31 +47,31 @@ CHECKS = {
     ),
     "C07": dict(
         technique="property-based testing with a validity-predicate oracle over the itext block (every jr:itext()/itextId resolves in every translation, equal id sets, unique languages/ids, default flag)",
-        text="Random multi-language forms with sparse translation patterns, shared lists, search() selects and label-less choices; the oracle needs no model: it reads all references and all translations from the parsed output.",
+        text="Random multi-language forms with sparse translation patterns, shared lists, search() selects and label-less choices; the oracle needs no model: it reads all references and all translations from the parsed output. Languages that differ only in white space (doubled or non-breaking space in one column's header) count as one language.",
         design_ref="DESIGN.md §4 C07",
         note="References are collected from every attribute and every itextId element of the parsed document.",
     ),
     "C08": dict(
         technique="property-based testing against a reference model of effective text per (element, kind, language), with unique generated texts and random column order",
-        text="Random multi-language forms where every text encodes its row/column/language; for each element with a control and each language of the form the shown label/hint/guidance/messages/media (itext resolved) must equal the model, holes must be '-', and the set of translations must equal the languages the sheets mention.",
+        text="Random multi-language forms where every text encodes its row/column/language; for each element with a control and each language of the form the shown label/hint/guidance/messages/media (itext resolved) must equal the model, holes must be '-', and the set of translations must equal the languages the sheets mention. In-line items of search() selects (also randomised ones) are compared per language like instance items.",
         design_ref="DESIGN.md §4 C08",
         note="Model in vf/ref/itext.py restated from the XLSForm docs (default-language rule: suffixed cell wins over unsuffixed). Two genuine defects found here were fixed in /repo.",
     ),
     "C09": dict(
         technique="property-based testing against a reference model of secondary instances, itemsets, external instance declarations and the itemsets CSV",
-        text="Random forms with many lists (shared, unused, sparse extra columns, translated, duplicates), every select variant, external sources and external_choices; each list must yield exactly one instance with its items/children in order, each select must read its own list with its own filter/randomize/refs, each external source is declared once with the conventional URI, and itemsets.csv must reproduce the sheet cell for cell.",
+        text="Random forms with many lists (shared, unused, sparse extra columns, translated, duplicates), every select variant, external sources and external_choices; each list must yield exactly one instance with its items/children in order, each select must read its own list with its own filter/randomize/refs, each external source is declared once with the conventional URI, and itemsets.csv must reproduce the sheet cell for cell. The seed reference of a randomised select is resolved from the select; parameter names in any case with case-sensitive values.",
         design_ref="DESIGN.md §4 C09",
         note="Model in vf/props/c09.py; select-from-repeat is not generated. Three genuine defects found here were fixed in /repo.",
     ),
     "C10": dict(
         technique="property-based testing with an exactly-once invariant plus a restated static/dynamic rule as reference model (defaults in instance vs setvalue placement/events; triggers as nested value-changed actions)",
-        text="Random forms with defaults drawn from static, dynamic and boundary classes on every question type inside and outside nested repeats, and trigger/target pairs; for every default exactly one of literal-in-instance or single first-load setvalue must hold, class and placement as prescribed; triggered calculations must be one nested action and no bind calculate.",
+        text="Random forms with defaults drawn from static, dynamic and boundary classes on every question type inside and outside nested repeats, and trigger/target pairs; for every default exactly one of literal-in-instance or single first-load setvalue must hold, class and placement as prescribed; triggered calculations must be one nested action and no bind calculate. A static default must occur in exactly one live node and, inside repeats, one template node; references of a triggered calculation are resolved from the calculated node.",
         design_ref="DESIGN.md §4 C10",
         note="Boundary texts (hyphens, brackets, bare paths) are only held to the exactly-once clause. One genuine defect fixed in /repo.",
     ),
     "C11": dict(
         technique="property-based testing against a reference model of the form header, with unique setting values (leak detection), alias spellings and file-path vs in-memory delivery",
-        text="Random subsets of all settings columns with unique values under random aliases, with/without convert() arguments, dict or md/xlsx file delivery with odd stems; title, instance root name/id/version/attributes, submission, body class, namespaces, instanceID/instanceName are compared with the model and every value must appear at its own place only.",
+        text="Random subsets of all settings columns with unique values under random aliases, with/without convert() arguments, dict or md/xlsx file delivery with odd stems; title, instance root name/id/version/attributes, submission, body class, namespaces, instanceID/instanceName are compared with the model and every value must appear at its own place only. Metamorphic clause: a form that converts without its settings sheet must convert with it (every generated settings value is a documented, valid one); settings cells with TAB/LF/CR; namespace names ending in '#'.",
         design_ref="DESIGN.md §4 C11",
         note="Smart-quote straightening in settings cells is tolerated either way.",
     ),
@@ -114,13 +114,13 @@ CHECKS = {
     "C18": dict(
         level="fault_enumeration",
         technique="fault-injection enumeration plus property-based generation: a scripted stand-in for the java executable on PATH (exit code, stderr, self-kill, sleep), a private TMPDIR and the working tree's CLI run as a subprocess; oracle = restated verdict table (codes 100/101/999, exception types, output file equal to the library result or untouched/removed, itemsets.csv) + expected cleaned message constructed by the stderr line grammar + empty TMPDIR and output directory",
-        text="The full product validator outcome {exit 0 silent, exit 0 + stderr, exit n>0 + stderr, killed by signal, java absent, real java + corrupt jar} x entry {library validate=True, CLI default, --json, --skip_validate, --odk_validate} x form {valid, valid with warnings, external choices, invalid} x output file {absent, pre-existing} is run on every quick run (240 cells; thorough doubles it with --pretty_print and adds the 100 s watchdog), then generated cases vary the stderr text (instance paths, kept paths, exception prefixes, stack lines, adjacent duplicates, non-ASCII), the exit status (1, 2, 3, 134, 255), the form (generated, md or xlsx) and the cell.",
+        text="The full product validator outcome {exit 0 silent, exit 0 + stderr, exit n>0 + stderr, killed by signal, java absent, real java + corrupt jar} x entry {library validate=True, CLI default, --json, --skip_validate, --odk_validate} x form {valid, valid with warnings, external choices, invalid} x output file {absent, pre-existing} is run on every quick run (240 cells; thorough doubles it with --pretty_print and adds the 100 s watchdog), then generated cases vary the stderr text (instance paths, kept paths, exception prefixes, stack lines, adjacent duplicates, non-ASCII), the exit status (1, 2, 3, 134, 255), the form (generated, md or xlsx) and the cell. A share of the CLI runs happens in a process whose locale encoding is not UTF-8 (standard streams kept UTF-8): the XForm file must still be the library result.",
         design_ref="DESIGN.md §4 C18",
         note="The stand-in records whether it was started, so --skip_validate and invalid forms are checked not to start it. Enketo is not exercised. Python-side crash points are not enumerated.",
     ),
     "C14": dict(
         technique="property-based differential testing over processes, histories and schedules: long-lived worker processes with different PYTHONHASHSEED values, generated step sequences (a history machine whose model is the answer of a pristine forked process), repeated to_xml() on the retained survey, a harness-owned thread scheduler (sys.setprofile baton passing at pyxform call boundaries driven by a generated, shrinkable schedule) and free-running thread stress; oracle = byte equality of (xform, warnings, itemsets) with the fresh-process answer, empty private TMPDIR, unchanged module-level tables",
-        text="Each shard keeps four long-lived workers (hash seeds 0, 1 and two derived from VERIF_SEED) so that state accumulates over the whole run. Generated cases: one form on all seeds; histories of 3-9 steps over a pool of 2-5 forms (incl. a rejected one) with regeneration; 2-4 conversions interleaved by a generated schedule of up to 40 switch points, and again under race-directed schedules in pristine child processes (every entry of a function sampled from the first conversion's own call trace hands the baton on; cold caches); 4-12 free-running threads; concurrent first conversions of a brand-new process. The workbook object handed to convert() must come back unchanged and convert the same a second time. After every step the worker's TMPDIR must be empty and a deep snapshot of aliases/constants/question-type tables must equal the snapshot taken at import.",
+        text="Each shard keeps four long-lived workers (hash seeds 0, 1 and two derived from VERIF_SEED) so that state accumulates over the whole run. Generated cases: one form on all seeds; histories of 3-9 steps over a pool of 2-5 forms (incl. a rejected one) with regeneration; 2-4 conversions interleaved by a generated schedule of up to 40 switch points, and again under race-directed schedules in pristine child processes (every entry of a function sampled from the first conversion's own call trace hands the baton on; cold caches); 4-12 free-running threads; concurrent first conversions of a brand-new process. The workbook object handed to convert() must come back unchanged and convert the same a second time. After every step the worker's TMPDIR must be empty and a deep snapshot of aliases/constants/question-type tables must equal the snapshot taken at import. Batches of .xlsx files with typed cells (booleans, whole numbers stored as 1.0) exercise the readers' state between files; the flat setting and several near-miss sheet names are generated.",
         design_ref="DESIGN.md §4 C14, §13",
         note="Hash seeds are sampled; switch points are function-call boundaries. Genuine defects found here and fixed in /repo: set iteration order reaching the output (twice), a shared re.Scanner whose match state raced between threads, convert() modifying the caller's dict; see DESIGN.md 13.2.",
     ),
